@@ -704,3 +704,83 @@ Proof.
   intros d1 L. apply run_refines; [|apply rrun_NF, nf_init|exact L].
   apply (proj1 (rrun_inv hist (db_init mode []) (dinv_init mode []) (JS_init mode []))).
 Qed.
+
+(* ======================= a deleted keyspace does not come back at reopen ======================= *)
+Lemma replay_items_ids cfg s meta mp items : forall kss, map k_id (replay_items cfg s kss meta mp items) = map k_id kss.
+Proof.
+  unfold replay_items. induction items as [|it r IH]; intros kss; cbn [fold_left]; [reflexivity|]. rewrite IH.
+  destruct (alookup (ri_ks it) meta) as [name|]; [|reflexivity]. destruct (blookup name mp) as [id|]; [|reflexivity].
+  rewrite map_map. apply map_ext. intros x. destruct (k_id x =? id); [|reflexivity]. destruct (_ && _); reflexivity.
+Qed.
+Lemma replay_clears_ids cfg s meta mp clears : forall sq kss, map k_id (snd (replay_clears cfg s (sq, kss) meta mp clears)) = map k_id kss.
+Proof.
+  unfold replay_clears. induction clears as [|c r IH]; intros sq kss; cbn [fold_left]; [reflexivity|].
+  destruct (alookup c meta) as [name|]; [|apply IH]. destruct (blookup name mp) as [id|]; [|apply IH].
+  destruct (existsb _ kss); [|apply IH]. rewrite IH. rewrite map_map. apply map_ext. intros x. destruct (k_id x =? id); reflexivity.
+Qed.
+Lemma replay_fold_ids cfg meta mp bs : forall sq kss, map k_id (snd (fold_left (replay_batch cfg meta mp) bs (sq, kss))) = map k_id kss.
+Proof.
+  induction bs as [|b r IH]; intros sq kss; cbn [fold_left]; [reflexivity|].
+  assert (K : map k_id (snd (replay_batch cfg meta mp (sq, kss) b)) = map k_id kss).
+  { unfold replay_batch. rewrite replay_clears_ids. apply replay_items_ids. }
+  destruct (replay_batch cfg meta mp (sq, kss) b) as [sq' kss']. cbn [snd] in K. rewrite IH. exact K.
+Qed.
+Lemma recover_sealed_fold_ids cfg meta mp sealed : forall st,
+  map k_id (snd (fst (fold_left (recover_sealed_one cfg meta mp) sealed st))) = map k_id (snd (fst st)).
+Proof.
+  induction sealed as [|bs r IH]; intros st; cbn [fold_left]; [reflexivity|]. rewrite IH.
+  destruct st as [[sq kss] acc]. unfold recover_sealed_one. pose proof (replay_fold_ids cfg meta mp bs sq kss) as K.
+  destruct (fold_left (replay_batch cfg meta mp) bs (sq, kss)) as [sq1 kss1]. cbn [fst snd] in *.
+  rewrite <- K. rewrite map_map. apply map_ext. intros x. destruct (alookup (k_id x) _); [|reflexivity].
+  destruct (match t_highest_persisted (k_tree x) with Some p => _ | None => false end); reflexivity.
+Qed.
+
+(* the keyspaces recovery produces are exactly those whose directory has a row in the meta tree *)
+Theorem recover_ids cfg mode filters active sealed meta dirs pn ms :
+  map k_id (d_kss (recover cfg mode filters active sealed meta dirs pn ms))
+  = map fst (filter (fun p => match alookup (fst p) meta with Some _ => true | None => false end) dirs).
+Proof.
+  unfold recover.
+  match goal with |- context [fold_left (recover_sealed_one cfg meta ?MP) sealed (0, ?K, [])] =>
+    pose proof (recover_sealed_fold_ids cfg meta MP sealed (0, K, [])) as K1;
+    destruct (fold_left (recover_sealed_one cfg meta MP) sealed (0, K, [])) as [[sq1 kss1] sealed'] end.
+  match goal with |- context [fold_left (replay_batch cfg meta ?MP) active (sq1, kss1)] =>
+    pose proof (replay_fold_ids cfg meta MP active sq1 kss1) as K2; destruct (fold_left (replay_batch cfg meta MP) active (sq1, kss1)) as [sq2 kss2] end.
+  cbn [fst snd d_kss] in *. rewrite K2, K1. rewrite map_map. reflexivity.
+Qed.
+
+Lemma alookup_aremove_same {A} k (l : list (N * A)) : alookup k (aremove k l) = None.
+Proof.
+  induction l as [|[x a] r IH]; cbn [aremove alookup]; [reflexivity|].
+  destruct (N.eqb_spec x k); [exact IH|]. cbn [alookup]. destruct (N.eqb_spec x k); [contradiction|exact IH].
+Qed.
+
+(* deleting the keyspace a name currently maps to removes its row from the meta tree; whatever happens to its directory and
+   to the journal records that still carry its id, the next recovery does not produce a keyspace object for that id *)
+Theorem deleted_keyspace_gone_after_reopen cfg d h id ks :
+  alookup h (d_handles d) = Some id -> ks_of d id = Some ks -> blookup (k_name ks) (d_map d) = Some id ->
+  let d1 := fst (do_delks d h) in
+  kfind (d_kss (do_reopen cfg d1)) id = None.
+Proof.
+  intros A K B d1.
+  assert (M : alookup id (d_meta d1) = None).
+  { unfold d1, do_delks. rewrite A, K. cbn [fst]. rewrite B. unfold draw_version. cbn [fst snd d_meta upd upd_reg]. apply alookup_aremove_same. }
+  destruct (kfind (d_kss (do_reopen cfg d1)) id) as [k0|] eqn:F; [|reflexivity]. exfalso.
+  destruct (kfind_some _ _ _ F) as [I0 E0].
+  assert (In id (map k_id (d_kss (do_reopen cfg d1)))) by (rewrite <- E0; apply in_map, I0).
+  unfold do_reopen in H. rewrite recover_ids in H. rewrite in_map_iff in H. destruct H as [p [Ep Ip]].
+  apply filter_In in Ip as [_ Ip]. rewrite Ep, M in Ip. discriminate.
+Qed.
+
+(* ... and the journal records that still carry the deleted keyspace's id are ignored by replay (items and clears alike) *)
+Theorem records_of_deleted_ignored cfg meta mp st b :
+  (forall it, In it (rb_items b) -> alookup (ri_ks it) meta = None) -> (forall c, In c (rb_clears b) -> alookup c meta = None) ->
+  replay_batch cfg meta mp st b = st.
+Proof.
+  intros HI HC. destruct st as [sq kss]. unfold replay_batch.
+  assert (E1 : replay_items cfg (rb_seqno b) kss meta mp (rb_items b) = kss).
+  { unfold replay_items. induction (rb_items b) as [|it r IH]; cbn [fold_left]; [reflexivity|].
+    rewrite (HI it) by now left. apply IH. intros x Ix. apply HI. now right. }
+  rewrite E1. unfold replay_clears. induction (rb_clears b) as [|c r IH]; cbn [fold_left]; [reflexivity|].
+  rewrite (HC c) by now left. apply IH. intros x Ix. apply HC. now right.
+Qed.
